@@ -108,7 +108,7 @@ theorem globLookup_ordered (cfg : Config V) (hord : cfg.orderingDisabled = false
     match (globKK cfg ty).find? (fun y => globMatches y.1.1.pat name) with
     | none => globLookup (toGRules cfg) cfg.orderingDisabled name ty = none
     | some y => ∃ b, globLookup (toGRules cfg) cfg.orderingDisabled name ty = some b ∧ b.rule = y.2 ∧
-        (NoStarField name → b.caps = capturesOf y.1.1.pat name) := by
+        b.caps = capturesOf y.1.1.pat name := by
   have hfind := find?_rulesFor_toGRules cfg name ty
   simp only [globLookup, hord, backtracking_ordered, Bool.not_false]
   cases hk : (globKK cfg ty).find? (fun y => globMatches y.1.1.pat name) with
